@@ -326,6 +326,37 @@ Theorem C19_watch_check_refines : forall x slot,
 Proof. exact maybe_changed_refines. Qed.
 Print Assumptions C19_watch_check_refines.
 
+(* the blocks of Lang/TokWatch.v that change the cell, against the machine's steps (abstraction: version word / 2, receiver
+   version / 2, CLOSED bit): the commit block is WCommit (version + 1, the value sent, nothing else), after it an up-to-date
+   receiver is behind; the last sender's drop sets CLOSED and never moves the version (WDropTx); a subscriber starts at the
+   current version *)
+Theorem C19_watch_commit_refines : forall v x,
+  let x' := fst (commit_fun v x) in
+  abs_ver x' = S (abs_ver x) /\ wt_value x' = v /\ abs_closed x' = abs_closed x /\
+  wt_rx x' = wt_rx x /\ wt_tx x' = wt_tx x /\ wt_rxc x' = wt_rxc x /\ wt_txc x' = wt_txc x /\
+  snd (commit_fun v x) = [wt_value x].
+Proof. exact commit_fun_refines. Qed.
+Print Assumptions C19_watch_commit_refines.
+
+Theorem C19_watch_commit_makes_stale : forall v x slot,
+  abs_seen x slot = abs_ver x -> abs_seen (fst (commit_fun v x)) slot <> abs_ver (fst (commit_fun v x)).
+Proof. exact commit_fun_makes_stale. Qed.
+Print Assumptions C19_watch_commit_makes_stale.
+
+Theorem C19_watch_drop_tx_refines : forall slot x,
+  let x' := fst (drop_tx_fun slot x) in
+  abs_ver x' = abs_ver x /\ wt_value x' = wt_value x /\ wt_rx x' = wt_rx x /\
+  (wt_txc x = 1%N -> abs_closed x' = true /\ snd (drop_tx_fun slot x) = [1%N]) /\
+  (wt_txc x <> 1%N -> abs_closed x' = abs_closed x /\ snd (drop_tx_fun slot x) = [0%N]).
+Proof. exact drop_tx_fun_refines. Qed.
+Print Assumptions C19_watch_drop_tx_refines.
+
+Theorem C19_watch_subscribe_refines : forall rslot x, rslot < length (wt_rx x) ->
+  let x' := fst (subscribe_fun rslot x) in
+  abs_seen x' rslot = abs_ver x' /\ abs_ver x' = abs_ver x /\ wt_value x' = wt_value x /\ wt_rxc x' = (wt_rxc x + 1)%N.
+Proof. exact subscribe_fun_refines. Qed.
+Print Assumptions C19_watch_subscribe_refines.
+
 Theorem C19_watch_version_word : forall n,
   st_version (2 * n) = (2 * n)%N /\ st_version (2 * n + 1) = (2 * n)%N /\ st_closed (2 * n) = false /\ st_closed (2 * n + 1) = true.
 Proof. intros n. repeat split; [apply st_version_open|apply st_version_closed|apply st_closed_open|apply st_closed_closed]. Qed.
